@@ -1,5 +1,11 @@
 package main
 
+import (
+	"strings"
+
+	"golang.org/x/tools/go/ssa"
+)
+
 // Property → rules table.
 
 type PropSpec struct {
@@ -62,5 +68,31 @@ func init() {
 		},
 		Assumptions:  []string{"callers do not mutate the queried document or the variables map while a query runs", "user-supplied Option functions do not retain the Executor"},
 		ExtraConfigs: archConfigs,
+	})
+}
+
+func parseRootsNoMust(p *Prog) []*ssa.Function {
+	var out []*ssa.Function
+	for _, f := range p.parseRoots() {
+		if !strings.HasPrefix(f.Name(), "Must") {
+			out = append(out, f)
+		}
+	}
+	return out
+}
+
+var rulePanicParse = rulePanic("R-PANIC-PARSE",
+	"no explicit panic, stdlib Must* call or unchecked type assertion is reachable from Parse/Scan/Unmarshal* unless a root on the way recovers and reports ErrParse, the guarding branch is provably infeasible, or the symbol is tabled",
+	parseRootsNoMust, "parser.ErrParse", 5)
+
+func init() {
+	register(rulePanicParse, ruleParseResult)
+	addProp(&PropSpec{
+		ID:    "C04",
+		Rules: []string{"R-PANIC-PARSE", "R-PARSE-RESULT"},
+		Explanation: "Totality of Parse as a shape of the code: every construct that can raise a panic explicitly below Parse/Scan/Unmarshal* is enumerated over the call graph and must be contained by a recovering root that returns the documented error.",
+		Decided:     []string{"R-PANIC-PARSE: explicit panics, Must* calls and comma-less type assertions below the parse roots are contained by a deferred recover in parser.Parse that reports ErrParse"},
+		NotDecided:  []string{"termination of the lexer loops", "the goyacc runtime (trusted)", "size limits of regexp compilation"},
+		Assumptions: []string{"values of the ast enum types are declared constants only"},
 	})
 }
